@@ -5,7 +5,10 @@ from .modprops import hx
 
 TRUSTED = ["Lean 4.33 kernel; axioms: propext, Quot.sound, Classical.choice at most (see coverage.axioms_used)",
            "M-Core (LlirModel/Core.lean): token-level model of printer and parser for modules of opaque type definitions and integer globals; the external "
-           "lexer/parser of llir/ll is trusted to deliver exactly these tokens (validated by byte-exact text comparison on every run)"] + modprops.MODEL_TRUST + [
+           "lexer/parser of llir/ll is trusted to deliver exactly these tokens (validated by byte-exact text comparison on every run)",
+           "M-Core-2 (LlirModel/Core2.lean + TyParse.lean): struct type definitions with bodies and globals of any type with nested aggregate constants; the text of types and "
+           "constants is read by byte-level readers proved to invert the printers (stand-ins for the grammar of llir/ll, compared with the real parser on printed and mutated "
+           "texts); line splitting and the identifier tokens are trusted as in M-Core"] + modprops.MODEL_TRUST + [
            "PARTIAL: outside M-Core and the leaf categories (C08, C09, C11, C16, C17, C18, C20, C04/C05) the grammar is tied by correspondence only: byte-exact fixpoint of "
            "generated canonical modules, graph closure, stability of the corpus modules; LLVM's own reading of the text is not consulted in the quick tier"]
 ASSUMPTIONS = ["names satisfy the C11 guards (non-empty, no NUL, not digit-led junk, not readable as an ID)"]
@@ -30,6 +33,11 @@ def gen(tier, rng, harness=None, driver=None):
         ts, gs = coregen.gen_core(rng)
         a = coregen.args(ts, gs)
         lines += ["core.print " + a, "core.reparse " + a, "!core.rt " + a]
+    from . import core2gen
+    for _ in range(n):
+        ts, gs = core2gen.gen_core2(rng)
+        lines += ["core2.print %s %s" % (ts, gs), "core2.reparse %s %s" % (ts, gs), "!core2.rt %s %s" % (ts, gs)]
+    lines += readconst_stream(rng, driver, n)
     for t in modprops.corpus_texts():
         lines.append("!mod.stable - %s" % hx(t))
         lines.append("!mod.closure - %s" % hx(t))
@@ -44,8 +52,35 @@ def gen(tier, rng, harness=None, driver=None):
     return lines
 
 
+def readconst_stream(rng, driver, n):
+    """the proved reader of `T V` (type + constant) against the real parser: on printed initialisers and on single-character structural
+    mutants of them (a bracket or a separator deleted): both must accept/reject alike and re-print the same text"""
+    import re
+    from . import core2gen
+    mods = [core2gen.gen_core2(rng) for _ in range(n)]
+    outs = C.run_lines([driver], ["core2.print %s %s" % m for m in mods], shards=8)
+    lines = []
+    for o in outs:
+        if not o or o in ("-", "unknown-op"):
+            continue
+        for l in bytes.fromhex(o).split(b"\n"):
+            m = re.match(rb"@\S+ = (?:global|constant) (.*)$", l)
+            if not m or b"%" in m.group(1):
+                continue      # a named struct type needs its real definition (packedness): those are covered by core2.reparse
+            tv = m.group(1)
+            lines.append("core2.readconst %s" % tv.hex())
+            pos = [i for i, c in enumerate(tv) if c in b"<>[]{}," and tv[:i].count(b'"') % 2 == 0]
+            if pos and rng.random() < 0.5:
+                i = rng.choice(pos)
+                lines.append("core2.readconst %s" % (tv[:i] + tv[i + 1:]).hex())
+    return lines
+
+
 def extra(res, findings, tier, rng, harness, driver):
-    return {"constructs_covered_by_generator": CONSTRUCTS, "mcore_constructs": ["opaque type definitions", "integer global variable definitions"]}
+    return {"constructs_covered_by_generator": CONSTRUCTS,
+            "mcore_constructs": ["opaque type definitions", "integer global variable definitions"],
+            "mcore2_constructs": ["identified struct type definitions (opaque, literal body, packed body, recursive through pointers)", "global / constant variables of any type",
+                                  "integer constants of any width incl. i1", "zeroinitializer / null / undef", "nested struct / packed struct / array / vector constants"]}
 
 
 def nontrivial(ln, model_out):
@@ -54,6 +89,8 @@ def nontrivial(ln, model_out):
 
 def search(ln, a, b, harness, driver):
     p = ln.split()
+    if p[0] in ("core2.readconst", "core2.print", "core2.reparse"):
+        return None
     c = "!core.rt " + " ".join(p[1:3])
     x = C.run_lines([harness, "run"], [c])[0]
     if x.split()[0] in ("FAIL", "panic"):
